@@ -12,8 +12,9 @@ import Srtla.Model.Reg
 
 Rust: `src/sender/{packet_handler.rs, uplink_recv.rs, housekeeping.rs}` — the arms of the event
 loop in `src/sender/mod.rs`.  One `Ev` = one arm invocation with the clock value it read; the
-outcome of the only fallible external call that is modelled (`send_all_datagrams` on a batch) is
-the `failNext` set (deterministic injection in the harness).  Everything put on an uplink socket
+outcomes of the two fallible external calls that are modelled are injected deterministically (also in
+the harness): `send_all_datagrams` on a batch fails for the conn ids in `failNext`, the socket
+re-creation of `reconnect_uplink` (uplink binder) fails for the conn ids in `failBind`.  Everything put on an uplink socket
 and everything relayed to the SRT client is returned in `Out`, in order.
 -/
 namespace Srtla.Sys
@@ -32,6 +33,9 @@ structure Sys (F : Type) where
   allFailedAt : Option Nat := none
   /-- conn ids whose next `send_all_datagrams` fails (send-failure injection). -/
   failNext : List Nat := []
+  /-- conn ids whose next socket re-creation in `reconnect_uplink` fails (the uplink binder refuses:
+  bind-failure injection); consumed by the next reconnect attempt of that link. -/
+  failBind : List Nat := []
 
 /-- Observable effects of one event. -/
 structure Out where
@@ -242,34 +246,46 @@ def handleUplinkPacket (s : Sys F) (connId : Nat) (data : Bytes) (now : Nat) : S
 
 /-! ## housekeeping.rs -/
 
-/-- Per-link pass of `handle_housekeeping`. Returns links, registration state, wire output. -/
+/-- Per-link pass of `handle_housekeeping`. Returns links, registration state, wire output.
+`fb` = conn ids whose socket re-creation fails (`Sys.failBind`); an entry is consumed by the reconnect
+attempt it fails (the list left over after the whole pass is `hkBindLeft`).  A failed re-creation
+(`reconnect_uplink` returns `Err` before it replaces `io.socket` or touches the connection) falls back
+to `mark_for_recovery`: no `reset_for_reconnect`, no `mark_reconnect_success` (the failure counter
+`record_attempt` just incremented stays), no `reset_startup_grace`.  The REG1 / REG2 re-send that
+follows goes out all the same — on the OLD socket, which is still in the I/O map.
+(The sibling arm "link has no I/O entry" leaves the same connection record but sends nothing; the I/O
+map is kept in step with the connection list by `apply_connection_changes`, so it is not modelled.) -/
 def hkLinksGo (classic : Bool) (now : Nat) :
-    List (FLink F) → Nat → Reg.Reg → List (FLink F) × Reg.Reg × List (Nat × Bytes)
-  | [], _, reg => ([], reg, [])
-  | l :: rest, i, reg =>
+    List (FLink F) → Nat → Reg.Reg → List Nat → List (FLink F) × Reg.Reg × List (Nat × Bytes)
+  | [], _, reg, _ => ([], reg, [])
+  | l :: rest, i, reg, fb =>
     if l.isTimedOut now then
       if l.shouldAttemptReconnect now then
         let l1 := l.recordAttempt now
-        -- `reconnect_uplink`: socket re-creation succeeds (assumed), then the pure reset
-        let l2 := l1.resetForReconnect now
-        let l3 := { l2 with failCount := 0, graceDeadline := now + Conn.STARTUP_GRACE_MS }
+        let fails := fb.contains l.core.connId
+        let fb1 := if fails then fb.erase l.core.connId else fb
+        -- `reconnect_uplink`: socket re-creation, then the pure reset; `mark_for_recovery` if it fails
+        let l3 := if fails then l1.markForRecovery
+          else
+            let l2 := l1.resetForReconnect now
+            { l2 with failCount := 0, graceDeadline := now + Conn.STARTUP_GRACE_MS }
         match reg.pending with
         | some p =>
           if p = i then
             let (reg1, pkt) := Reg.buildReg1For reg i now
             let l4 := { l3 with core := { l3.core with lastSent := some now } }
-            let (r, reg2, w) := hkLinksGo classic now rest (i + 1) reg1
+            let (r, reg2, w) := hkLinksGo classic now rest (i + 1) reg1 fb1
             (l4 :: r, reg2, (l.core.connId, pkt) :: w)
           else
-            let (r, reg2, w) := hkLinksGo classic now rest (i + 1) reg
+            let (r, reg2, w) := hkLinksGo classic now rest (i + 1) reg fb1
             (l3 :: r, reg2, w)
         | none =>
           let pkt := Reg.buildReg2 reg
           let l4 := { l3 with core := { l3.core with lastSent := some now } }
-          let (r, reg2, w) := hkLinksGo classic now rest (i + 1) reg
+          let (r, reg2, w) := hkLinksGo classic now rest (i + 1) reg fb1
           (l4 :: r, reg2, (l.core.connId, pkt) :: w)
       else
-        let (r, reg2, w) := hkLinksGo classic now rest (i + 1) reg
+        let (r, reg2, w) := hkLinksGo classic now rest (i + 1) reg fb
         (l :: r, reg2, w)
     else
       let (l1, w1) := if l.needsKeepalive now then
@@ -281,8 +297,17 @@ def hkLinksGo (classic : Bool) (now : Nat) :
       let l3 := if !classic then l2.performWindowRecovery now else l2
       let l4 := { l3 with bitrate := l3.bitrate.calculate now }
       let l5 := (l4.updatePhase now).recomputeBatchRegime
-      let (r, reg2, w) := hkLinksGo classic now rest (i + 1) reg
+      let (r, reg2, w) := hkLinksGo classic now rest (i + 1) reg fb
       (l5 :: r, reg2, w1 ++ w2 ++ w)
+
+/-- The bind-failure injections still pending after the per-link pass: every reconnect attempt of a
+link whose conn id is in the list consumes one entry (the same threading as inside `hkLinksGo`). -/
+def hkBindLeft (now : Nat) : List (FLink F) → List Nat → List Nat
+  | [], fb => fb
+  | l :: rest, fb =>
+    if l.isTimedOut now && l.shouldAttemptReconnect now && fb.contains l.core.connId then
+      hkBindLeft now rest (fb.erase l.core.connId)
+    else hkBindLeft now rest fb
 
 /-- `handle_housekeeping`. -/
 def handleHousekeeping (s : Sys F) (now : Nat) : Sys F × Out :=
@@ -299,7 +324,7 @@ def handleHousekeeping (s : Sys F) (now : Nat) : Sys F × Out :=
         | none => (r, s.links)
       else (r, s.links)
     else (reg0, s.links)
-  let (ls1, reg2, w1) := hkLinksGo classic now ls0 0 reg1
+  let (ls1, reg2, w1) := hkLinksGo classic now ls0 0 reg1 s.failBind
   let reg3 := Reg.updateActiveConnections reg2 (ls1.map (·.core.connected))
   let (reg4, sends) := Reg.regDriverPendingSends reg3 now
   let (ls2, w2) := match sends.reg1 with
@@ -318,7 +343,8 @@ def handleHousekeeping (s : Sys F) (now : Nat) : Sys F × Out :=
       let fa := match s.allFailedAt with | some t => t | none => now
       (some fa, decide (now - fa > Hk.GLOBAL_TIMEOUT_MS))
     else (none, false)
-  ({ s with links := ls3, reg := reg4, allFailedAt := afa }, { wire := w1 ++ w2 ++ w3, hkErr := err })
+  ({ s with links := ls3, reg := reg4, allFailedAt := afa, failBind := hkBindLeft now ls0 s.failBind },
+   { wire := w1 ++ w2 ++ w3, hkErr := err })
 
 /-! ## Events -/
 
@@ -330,6 +356,8 @@ inductive Ev where
   | setCfg (cfg : Select.Cfg)
   | crit (deadline : Nat)
   | failNext (connId : Nat)
+  /-- the next socket re-creation of the link with this conn id fails (binder error) -/
+  | failBind (connId : Nat)
 
 def step (s : Sys F) : Ev → Sys F × Out
   | .client now pkt => handleSrtPacket s pkt now
@@ -339,5 +367,6 @@ def step (s : Sys F) : Ev → Sys F × Out
   | .setCfg cfg => ({ s with cfg := cfg }, {})
   | .crit d => ({ s with critDeadline := max s.critDeadline d }, {})
   | .failNext cid => ({ s with failNext := cid :: s.failNext }, {})
+  | .failBind cid => ({ s with failBind := cid :: s.failBind }, {})
 
 end Srtla.Sys
